@@ -48,5 +48,8 @@ def run(chk):
     lines += gen_shapes.make_targeted(chk.seed * 104729 + 5, 480 if chk.quick else 4000, kinds)
     # rational / double boxes with half-open intervals get a stream of their own
     lines += gen_shapes.make_targeted(chk.seed * 1299709 + 7, 160 if chk.quick else 1500, ["box_q", "box_d"], start=100000, which=["open_box", "open_box", "diff_eq"])
+    # dense family for upper_bound_assign_if_exact (and the integer variant): pairs of small shapes with end points on a tiny
+    # grid, sharing / adjacent / crossing faces, both argument orders; and swaps / assignments between lazy states
+    lines += gen_shapes.make_targeted(chk.seed * 15485863 + 17, 480 if chk.quick else 6000, kinds, start=200000, which=["ubie", "ubie", "ubie", "swap"])
     out, byid = shapescheck.run_cases(chk, "C03", shapescheck.corpus_cases("C03") + lines, "c03", owner)
     shapescheck.account(chk, out, byid, "C03_* (closure / refine / meet / join / forget never cut a point; definite answers) + verified inclusion test incl_sys")
